@@ -1,4 +1,5 @@
 import Ruint.Lemmas.Pow
+import Ruint.Lemmas.GenValue
 import Ruint.Lemmas.Log
 import Ruint.Lemmas.Root
 import Ruint.Lemmas.C13Spec
@@ -332,5 +333,20 @@ example : checkedLog10 3 5 0 = .ok (some 0) ∧ checkedLog2 1 1 0 = .ok (some 0)
 example : root 64 1000000 3 97 = .ok 100 ∧ guessOk 64 1000000 3 97 100 = true := by decide +kernel
 example : approxPow2Int 128 65 = some (2 ^ 65) ∧ approxPow2Int 128 128 = none ∧ approxPow2Int 0 0 = none := by decide +kernel
 example : root 64 999999 3 200 = .ok 99 ∧ guessOk 64 999999 3 200 99 = true := by decide +kernel
+
+/-! ## Tie of the `pow` wrappers to the source (G, value mode)
+
+`Ruint.Gen.val_overflowing_pow` / `val_wrapping_pow` are regenerated from `src/pow.rs` on every run in the translator's
+*value mode* (a `Uint` is its numeric value; `overflowing_mul`, `wrapping_mul`, `bit`, `is_zero`, `>>=` are their
+value-level meanings — theorems of C02/C05/C06): the `BITS == 0` early return, the loop condition, the two overflow flags
+and their update order are the source's. They are equal to the models the theorems above are about, fuel for fuel. -/
+
+theorem gen_overflowing_pow_eq (bits L a e : ℕ) :
+    Ruint.Gen.val_overflowing_pow (e + 1) bits L a e = overflowingPow bits a e :=
+  Ruint.GenValue.overflowing_pow_eq bits L a e
+
+theorem gen_wrapping_pow_eq (bits L a e : ℕ) :
+    Ruint.Gen.val_wrapping_pow (e + 1) bits L a e = wrappingPow bits a e :=
+  Ruint.GenValue.wrapping_pow_eq bits L a e
 
 end Ruint.C13
